@@ -89,7 +89,8 @@ func c04(r *hx.Run) {
 	if r.Tier == "thorough" {
 		pairAlpha = all
 	}
-	later := []Coord{{4, 0}, {4, 1}, {5, 0}}
+	// later anchoring positions: later times, and the same time as the last base operation with a higher number
+	later := []Coord{{3, 1}, {3, 2}, {4, 0}, {4, 1}, {5, 0}}
 	hx.ParallelFor(len(deactStates), func(si int) {
 		if r.OverBudget() {
 			return
@@ -137,6 +138,9 @@ func c04(r *hx.Run) {
 			}
 			for _, b := range pairAlpha {
 				try([]fx.Placed{{Op: pool.Get(a), Time: 4, Num: 0, Published: true}, {Op: pool.Get(b), Time: 5, Num: 0, Published: true}})
+				if r.Tier == "thorough" || si%18 == 0 {
+					try([]fx.Placed{{Op: pool.Get(a), Time: 3, Num: 2, Published: true}, {Op: pool.Get(b), Time: 3, Num: 1, Published: true}})
+				}
 			}
 		}
 		r.Sample(map[string]interface{}{"deactivated_state": placedDesc(s)})
@@ -233,5 +237,5 @@ func c04(r *hx.Run) {
 			}
 		}
 	})
-	r.Assumptions = append(r.Assumptions, "extensions are anchored strictly after every operation of the base history (times 4,5) or are unpublished", "in quick, pairs of extensions run on every 6th and the document handler part on every 4th deactivated base state (all of them in thorough)")
+	r.Assumptions = append(r.Assumptions, "extensions are anchored after every operation of the base history (same time as the last base operation with a higher number, or later times) or are unpublished; they come first in the store's return order", "in quick, pairs of extensions run on every 6th and the document handler part on every 4th deactivated base state (all of them in thorough)")
 }
